@@ -47,7 +47,7 @@ def rule(tier):
 def floors(tier):
     z = sizes(tier)
     return {"evaluations": z["N"] * 2, "distinct": z["N"],
-            "counters": {"codec_values": z["N"] * 2 + z["P"], "doc_cells_compared": z["docs"] * 50, "docs_saved": z["docs"] // 2, "docs_saved_twice": z["docs"] // 8, "docs_with_a_merged_region": z["docs"] // 6, "docs_with_a_merged_region_beyond_row_256": 3,
+            "counters": {"codec_values": z["N"] * 2 + z["P"], "doc_cells_compared": z["docs"] * 50, "docs_saved": z["docs"] // 2, "docs_saved_twice": z["docs"] // 8, "docs_with_a_merged_region": z["docs"] // 6, "docs_with_a_merged_region_beyond_row_256": 3, "cells_overwritten_with_an_equal_value_of_another_type": 300,
                          "docs_grown_by_write": 5, "docs_multi_tile": 5, "docs_wide": 3, "package_saves": 5,
                          "contract:d128_exact.pack": z["N"], "contract:d128_exact.unpack": z["N"],
                          "type:str": 500, "type:bool": 100, "type:int": 500, "type:float": 500, "type:datetime": 300, "type:timedelta": 300}}
@@ -62,7 +62,12 @@ def plan(tier, seed):
     nd = 16 if tier == "quick" else 48
     per = z["docs"] // nd
     for i in range(nd):
-        specs.append({"part": "docs", "stream": i, "n": per, "cells": z["cells"], "tier": tier, "seed": seed})
+        spec = {"part": "docs", "stream": i, "n": per, "cells": z["cells"], "tier": tier, "seed": seed}
+        if i % 4 == 1:
+            spec["tz"] = "CET-1CEST,M3.5.0,M10.5.0/3"   # central European time with daylight saving
+        elif i % 4 == 3:
+            spec["tz"] = "NZST-12NZDT,M9.5.0,M4.1.0/3"  # southern hemisphere, +12/+13
+        specs.append(spec)
     return specs
 
 
@@ -155,6 +160,9 @@ def doc_case(case, rec):
     from numbers_parser import Document
     from vf.gen import docs
     rng = random.Random(case["rseed"])
+    if os.environ.get("TZ", "UTC") != "UTC":
+        case["tz"] = os.environ["TZ"]  # a witness is replayed under the local time zone it was found under
+        rec.count("docs_under_a_dst_time_zone")
     name, rows, cols = SHAPES[case["shape"]]
     package = case["package"]
     grow = case["grow"]
@@ -205,6 +213,14 @@ def doc_case(case, rec):
         with warnings.catch_warnings(record=True) as w:
             warnings.simplefilter("always")
             try:
+                if rng.random() < .12 and pclass == "inside":
+                    # the cell held something else before: a value of another type that compares equal (True == 1 == 1.0,
+                    # 0 == False == 0.0), or just another value - what is read back is the last value written, with its type
+                    twin = {True: 1, False: 0, 1: True, 0: False, 1.0: True, 0.0: False}.get(v) if isinstance(v, (bool, int, float)) and v in (0, 1) else None
+                    table.write(r, c, twin if twin is not None else rng.choice([1, True, "before", 0.0]))
+                    rec.count("cells_overwritten")
+                    if twin is not None:
+                        rec.count("cells_overwritten_with_an_equal_value_of_another_type")
                 if rng.random() < .3:
                     from vf.ref import a1
                     table.write(a1.cell_name(r, c), v)
